@@ -162,9 +162,6 @@ def scalar_setup(arr, arr0=None, *, axes=None, check=True, ref=None):
     """setup scalar operator"""
     xp = common.get_array_module()
     arr = scalar_format(arr, check=check)
-    if ref is not None:
-        arr, _ = xp.broadcast_arrays(arr, ref)
-
     if arr0 is not None:
         arr0 = scalar_format(arr0, check=check)
         arr, arr0 = xp.broadcast_arrays(arr, arr0)
@@ -172,6 +169,12 @@ def scalar_setup(arr, arr0=None, *, axes=None, check=True, ref=None):
     if axes is not None:
         arr = common.set_axes(1, arr, axes)
         arr0 = None if arr0 is None else common.set_axes(1, arr0, axes)
+
+    if ref is not None:
+        # `ref` (the operator array) already carries the requested axes
+        arr, _ = xp.broadcast_arrays(arr, ref)
+        if arr0 is not None:
+            arr0, _ = xp.broadcast_arrays(arr0, ref)
     return common.ArrayTuple([arr, arr0])
 
 
